@@ -41,8 +41,9 @@ def _prove_one(task):
     try:
         from pyvc import verify
         spec = load_spec(modname, tier)
-        c = spec.world.by_name[target]
-        rep = verify.prove_function(spec.world, spec.make_models, c, timeout_ms=spec.z3_ms, inner_jobs=inner)
+        world = getattr(spec, 'worlds', {}).get(target, spec.world)      # a target may be proved in its own world of contracts
+        c = world.by_name[target]
+        rep = verify.prove_function(world, spec.make_models, c, timeout_ms=spec.z3_ms, inner_jobs=inner)
         return rep.as_dict()
     except Exception:
         return {'name': target, 'crash': traceback.format_exc()}
